@@ -163,3 +163,34 @@ func vhC07Rule(kind, enc, reload int) {
 	vassert(fired == vor(!has, t2 < E), "dispatched-iff-before-expiry")
 	vreach("end")
 }
+
+// VH_C07_reload_mixed: storage holds an item whose expiry passes before the location is
+// rebuilt, next to items without an expiry: the reloaded location has exactly the others
+// (the expired one is dropped and purged, nothing else is lost). pos: position of the
+// expiring item in the write order (0 first, 1 middle, 2 last).
+func VH_C07_reload_mixed(kind, pos int) {
+	vhSetSecs(vhT0)
+	env := vhNewEnv(kind)
+	e := int64(vsymInt("E", int(vhT0)+1, int(vhT0)+1000))
+	ids := []string{"a", "b", "c"}
+	for i, id := range ids {
+		f := Map{"k": id}
+		if i == pos {
+			f["expires"] = float64(e)
+		}
+		_, err := env.state.Add(env.ctx, id, f)
+		vassume(err == nil)
+	}
+	now := int64(vsymInt("reloadAt", int(vhT0), int(vhT0)+2000))
+	vhSetSecs(now)
+	env2 := vhOpenEnv(kind, NewContext("reload"), env.store, env.name)
+	for i, id := range ids {
+		_, gerr := env2.state.Get(env2.ctx, id)
+		if i == pos {
+			vassert((gerr == nil) == (now < e), "visible-iff-before-expiry")
+		} else {
+			vassert(gerr == nil, "unexpired-item-survives-reload")
+		}
+	}
+	vreach("end")
+}
